@@ -3,5 +3,5 @@ CONSTANTS
   Fmts = {}
   EmitJson = FALSE
   Quick = TRUE
-INVARIANTS DecOK DecGoOK EncOK CarrierOK NoAmplify
+INVARIANTS DecOK DecGoOK EncOK CarrierOK NoAmplify UsedOK
 CHECK_DEADLOCK FALSE
